@@ -209,7 +209,7 @@ type Comp struct {
 var staticNames = []string{"Empty", "Text", "TextExpr", "MultiLineExpr", "EscText", "Attrs", "ClassAttr", "StyleAttr", "StyleForms", "Href",
 	"OnClick", "ScriptCall", "ScriptElem", "RawElems", "Nav", "Layout", "Page", "IfElse", "ForLoop", "Switch", "Wrap", "UseWrap",
 	"NestedFail", "ManyTiny", "Flushy", "Joiny", "Oncey", "Rawy", "Funcy", "GoHTML", "ToGoHTML", "JSONy", "SubBox", "UseMethod",
-	"Deep", "LongStatic", "LongMixed", "LongBoundary", "DevA", "DevB",
+	"Deep", "SideSmall", "SideLarge", "SideTwice", "LongStatic", "LongMixed", "LongBoundary", "DevA", "DevB",
 	"BareJoin", "BareOnce", "BareFlush", "SlotRoot", "NonceScripts", "NonceOnClick", "BareRaw", "BareScript"}
 
 var variedNames = []string{"EscText", "Attrs", "ClassAttr", "Href", "Nav", "Page", "IfElse", "ForLoop", "Switch", "OnClick", "BareJoin"}
@@ -296,6 +296,7 @@ type ErrFacts struct {
 	IsShort    bool   `json:"short,omitempty"`
 	IsCanceled bool   `json:"canc,omitempty"`
 	IsSentinel bool   `json:"sent,omitempty"`
+	Panic      bool   `json:"panic,omitempty"`
 	AsTempl    bool   `json:"astempl,omitempty"`
 	File       string `json:"file,omitempty"`
 	Line       int    `json:"line,omitempty"`
@@ -349,6 +350,8 @@ type Event struct {
 	Flush int      `json:"flush,omitempty"`
 	Pool  *PoolEv  `json:"pool,omitempty"`
 	Msg   string   `json:"msg,omitempty"`
+	Side  *Out     `json:"side,omitempty"`
+	Sinks []*Out   `json:"sinks,omitempty"`
 }
 
 // Job mirrors the driver's job line.
@@ -372,6 +375,33 @@ type Job struct {
 	Gosched bool     `json:"gosched,omitempty"`
 	Rewrite *Rewrite `json:"rewrite,omitempty"`
 	Tag     string   `json:"tag,omitempty"`
+	Writers []string `json:"writers,omitempty"`
+	Steps   []Step   `json:"steps,omitempty"`
+}
+
+// Step of a writer-kind sequence (see the driver).
+type Step struct {
+	W    int    `json:"w"`
+	C    int    `json:"c"`
+	Kind string `json:"kind,omitempty"`
+	K    int    `json:"k,omitempty"`
+	GC   bool   `json:"gc,omitempty"`
+}
+
+// WriterKinds are the writer objects the driver can build for sequences; the
+// first four wrap a recording sink that can be armed with one faulty Write.
+var WriterKinds = []string{"fw", "sw", "func", "http", "bytesbuf", "builder", "bufio16", "bufio4096", "bufio8192"}
+
+// FaultCapable reports whether a sequence writer kind can be given a fault.
+func FaultCapable(kind string) bool { return kind == "fw" || kind == "sw" || kind == "func" || kind == "http" }
+
+// Hash is the driver's stream hash (FNV-1a 64, hex).
+func Hash(b []byte) string {
+	h := uint64(14695981039346656037)
+	for _, c := range b {
+		h = (h ^ uint64(c)) * 1099511628211
+	}
+	return fmt.Sprintf("%x", h)
 }
 
 type Rewrite struct {
